@@ -513,9 +513,15 @@ class Gen:
             ret = self.pick([("unit",), ("unit",), ("result", ("unit",), self.simple_ret_payload(allow_unit=True), "std"), ("opt", ("unit",), "std")])
         if p["write"] and self.chance(p["write_prob"] if ret[0] != "opt" else max(0.5, p["write_prob"])) and ret[0] in ("unit", "result", "opt") and (ret[0] == "unit" or ret[1] == ("unit",)):
             params.append(("w", ("write",)))
+        own_opt = False
+        if owner.kind in ("struct", "enum") and not owner.lifetimes and p["option"] and p["self_spelling"] and len(params) < p["max_params"] + 1 and self.chance(0.15):
+            # an optional value of the owner's own type (`o: Option<Self>`)
+            at = len(params) - (1 if params and params[-1][1] == ("write",) else 0)
+            params.insert(at, ("po", ("opt", (owner.kind if owner.kind == "enum" else "struct", owner.name), "std")))
+            own_opt = True
         m = Method("m%d" % idx, sk, params, ret, lifetimes=lifetimes)
         # spell the owner's own type as `Self` in this signature (Box<Self>, &Self, Self by value ...): a separate AST node (SelfType)
-        m.self_spelling = bool(self.p["self_spelling"] and not owner.lifetimes and self.chance(0.3))
+        m.self_spelling = bool(self.p["self_spelling"] and not owner.lifetimes and self.chance(0.7 if own_opt else 0.3))
         m.owner = owner
         return m
 
